@@ -159,6 +159,14 @@ CLAIMED = {
              "added separately; until they are listed the network-mode clauses rest on the correspondence stream and its oracle. "
              "In forwarding mode the forwarder's answer section is passed on as it is (D6): a forwarder that repeats the records "
              "of an alias cycle (the modelled one does, up to 64) gets them passed on; such replies are counted and not judged. "
+             "RECORDED exception to 'no alias is followed twice' (known_findings.json, class alias-followed-twice-across-replies, "
+             "printed as KNOWN-FINDING on every run, witnesses first in the stream): when two statements about one alias "
+             "contradict each other across sources the question stack does not connect -- two upstream replies (a CNAME b in "
+             "one, b CNAME a; a CNAME c in a later one) in recursive mode, or the cache and a later upstream / forwarder reply in "
+             "both modes -- the alias is followed twice and both records are returned and cached (cause: names inside a reply's "
+             "chain and names followed locally from the cache are not on the duplicate-question stack; every link connects, nothing "
+             "is repeated, the resolution ends); an identical record twice, a broken link or a duplicate inside one reply remain "
+             "violations. "
              "In the network modes a chain longer than 32 that lies in a local zone is answered whole (each stage of the "
              "resolution follows up to 32 local links; bound about 32 x 32), which the check accepts. local_chain_ok assumes of the "
              "sources: zone answers are owned by the query name with the asked type (proved here for zone trees whose record maps "
@@ -197,10 +205,20 @@ CLAIMED = {
              "the question name -- so at most as many referrals are followed as the question name has labels -- and names a host), "
              "C07_no_referral_same_delegation, C07_answer_provenance (every record returned agrees in owner, type and data with "
              "local zone data, a record cached before, or a record of a reply the oracle sent in this resolution that passed the "
-             "header gate and that the filter specification [allowed] of C06 admits), and on the specification side "
-             "C07_referral_strictly_deeper, C07_auth_answer_from_universe; C07_example_two_level evaluates the model against "
+             "header gate and that the filter specification [allowed] of C06 admits); and, for every universe, the two kinds of hop "
+             "of a resolution against Universe.serve: C07_referral_hop_partial (when the candidate picked has an address at which a "
+             "server listens whose zone has a delegation point on the way to the question name, and the transport delivers serve's "
+             "referral, the loop caches the NS set and glue and continues with exactly that delegation and the NS targets as hosts) "
+             "and C07_last_hop_partial (at a server of the zone that owns the question name -- no cut on the way, no alias at the "
+             "name, question type other than CNAME/ANY -- the loop returns EXACTLY auth_answer: the records of the asked type, or no "
+             "records and the zone's SOA), with their ingredients C07_filter_accepts_plain_answer / _denial / _referral "
+             "(completeness of the reply filter on serve's three reply shapes), C07_serve_is_auth_answer and "
+             "C07_universe_oracle_delivers (the fault-free universe oracle hands query_nameserver exactly the message serve "
+             "prescribes, through the wire codec, when the replies are well-formed and fit 512 octets); on the specification "
+             "side C07_referral_strictly_deeper, C07_auth_answer_from_universe; C07_example_two_level evaluates the model against "
              "Universe.serve through the wire codec inside Coq on a consistent two-level universe (result = auth_answer for an "
-             "alias and for a missing name). STREAM-ONLY (not proved): that the result EQUALS auth_answer on every consistent "
+             "alias and for a missing name). STREAM-ONLY (not proved): that the hops chain up, i.e. that the result EQUALS "
+             "auth_answer on every consistent "
              "universe (C07_correct_partial is stated in a comment of Properties/C07.v with what is missing). That clause is covered "
              "by the differential stream and the oracle: generated universes (depth 1..5, 1..3 nameservers per zone, "
              "in/out-of-bailiwick and sibling nameserver names, glue present/absent, v4/v6/dual addresses, cross-zone CNAMEs, "
@@ -208,14 +226,19 @@ CLAIMED = {
              "transport (hook H3) from a reply table computed by the extracted Universe.serve; the implementation's result must "
              "equal the extracted auth_answer and the model must agree with the implementation on every exchange, result and the "
              "final cache.",
-        note="C07_correct_partial is NOT proved, not even for depth 1: missing are the round trip of serve's messages through the "
-             "wire codec under the oracle (a well-formedness predicate on universes), completeness of the filter on serve's "
-             "replies (C06 proves soundness), and the glue shortcut F11 as a hypothesis. Stated hypothesis of the property as "
+        note="C07_correct_partial is NOT proved as a whole, not even for depth 1. Missing to chain the proved hops: (1) that "
+             "resolve_hostname_to_ip yields for the popped candidate an address at which a server of the delegated zone listens "
+             "(lookup behaviour of the root-hints zone for arbitrary names via C02's flat specification; get-after-insert_all for "
+             "the cached glue); (2) a well-formedness predicate on universes implying [serve_fits] (replies well formed and at "
+             "most 512 octets), under which C07_universe_oracle_delivers discharges the hop theorems' hypothesis [delivers]; "
+             "(3) aliases (serve's multi-link answers, the CNAME continuation); (4) the glue "
+             "shortcut F11 as a hypothesis on the universe. Stated hypothesis of the property as "
              "implemented: every listed nameserver answers (the first candidate that gives no usable reply ends the resolution "
              "with DeadEnd). The theorems hold for an abstract cache under two laws (a read returns records the cache holds, up "
              "to class and TTL; an insert adds only the inserted records) which SimpleCache -- the small executable instance at a "
-             "fixed virtual instant that the model driver runs -- is proved to meet (C08_simple_cache_laws); the driver has not "
-             "been switched to Cache/CacheModel.v.",
+             "fixed virtual instant that the model driver runs -- is proved to meet (C08_simple_cache_laws), and so is the real cache "
+             "model Cache/CacheModel.v under its invariant at any fixed instant (C08_real_cache_laws); the DRIVER has not been "
+             "switched to Cache/CacheModel.v.",
         design="5/C07", technique="Coq proof over executable model + model/impl correspondence (extraction)"),
     "C08": dict(
         text="Executable Gallina model of the upstream transport (query_nameserver: UDP attempt into a 512-byte buffer, header "
@@ -243,7 +266,9 @@ CLAIMED = {
         note="The termination fuel of the recursive model is existential (it depends on the number of host names in the referrals "
              "the oracle sends); the drivers pass RESOLVER_FUEL = 200000 and the stream would show OutOfFuel if that were too "
              "little. Provenance is up to class and TTL (the cache keeps neither) and is stated for an abstract cache under two "
-             "laws that SimpleCache is proved to meet. Runtime clauses outside the model: that tokio's timeout really fires, "
+             "laws that SimpleCache (what the model driver runs) and the real cache model Cache/CacheModel.v (under its invariant, "
+             "at any fixed instant: C08_real_cache_laws, Resolver/ResolverCacheInstance.v) are both proved to meet; the driver "
+             "itself has not been switched to CacheModel. Runtime clauses outside the model: that tokio's timeout really fires, "
              "cancellation safety, real sockets.",
         design="5/C08", technique="Coq proof over executable model + model/impl correspondence (extraction)"),
     "C18": dict(
